@@ -92,13 +92,24 @@ def make_signal(samples, ratios, labels="0..n-1"):
     return pd.Series([float(s * r) for s in samples for r in ratios], index=mi)
 
 
+class ArgumentChanged(Exception):
+    """the implementation modified an argument that belongs to the caller (reported as a failure on the case)"""
+
+
 def run_detector(samples, ratios, law, labels="0..n-1"):
     from pylife.stress.rainflow.fkm_nonlinear import FKMNonlinearDetector
     from pylife.stress.rainflow.recorders import FKMNonlinearRecorder
     rec = FKMNonlinearRecorder()
     det = FKMNonlinearDetector(recorder=rec, notch_approximation_law=law)
     sig = make_signal(samples, ratios, labels)
+    keep = sig.copy()
     det.process_hcm_first(sig).process_hcm_second(sig)
+    # the load sequence is the caller's: both passes read it, neither may change it (values, index)
+    same = np.array_equal(np.asarray(sig), np.asarray(keep), equal_nan=True) and (
+        not isinstance(sig, pd.Series) or (sig.index.equals(keep.index) and list(sig.index.names) == list(keep.index.names)))
+    if not same:
+        raise ArgumentChanged("the detector changed the load sequence it was given (process_hcm_first / process_hcm_second "
+                                            f"work in place on their argument): {list(np.asarray(keep))[:8]} -> {list(np.asarray(sig))[:8]}")
     return det, rec
 
 
